@@ -212,3 +212,13 @@ Lemma auto_mapping_argument_order_matters :
   repr_inst (VAuto (lit "AutoA") [(lit "a", VDict [(lit "z", VInt 1); (lit "b", VStr (lit "q"))])]) <>
   repr_inst (VAuto (lit "AutoA") [(lit "a", VDict [(lit "b", VStr (lit "q")); (lit "z", VInt 1)])]).
 Proof. vm_compute. discriminate. Qed.
+
+(* K2c: a placeholder string under dont_persist_default_value - whether the parameter enters the key text depends on
+   the value substituted for the placeholder (it is dropped exactly when the substituted text equals the default) *)
+Definition k2c_param : pdecl :=
+  {| pd_name := lit "q"; pd_cfg := lit "q"; pd_default := Some (VStr (lit "/mnt/x")); pd_ignore := false;
+     pd_dropdef := true; pd_dtype := DAny |}.
+Lemma placeholder_default_matters :
+  param_repr k2c_param (sr (of_map [(lit "D", lit "/mnt")]) (VStr (lit "{D}/x")), false) <>
+  param_repr k2c_param (sr (of_map [(lit "D", lit "/srv")]) (VStr (lit "{D}/x")), false).
+Proof. vm_compute. discriminate. Qed.
